@@ -69,7 +69,7 @@ CHECKS["C04"] = dict(
         "projection of a subset leaves other bins unchanged or zero as requested, back projection accumulates, and the explicit-symmetries branch agrees with the per-bin branch when the related "
         "lists partition the range (negative witness where they do not: listed known finding for Blocks/Generic TOF data with cache disabled). Tie: rows are read from the real ProjMatrixByBin, "
         "the real ForwardProjectorByBinUsingProjMatrixByBin/BackProjectorByBinUsingProjMatrixByBin are run on random data for subsets, groups, sub-ranges, cache on/off, cylindrical/blocks, TOF/non-TOF and the "
-        "model recomputes every value exactly in Rat (derived rounding bound); adjointness, additivity and frame oracles run on the implementation; the on-the-fly ray-tracing projector vs matrix clause is oracle-only.",
+        "model recomputes every value exactly in Rat (derived rounding bound); adjointness, additivity and frame oracles run on the implementation; projection data smaller than the set-up geometry agree with the restriction of the whole-data projection and adjointness holds through any mutually adjoint pre-/post-processor pair (both theorems, both exercised); the separate-projector pair and the smoothing wrappers are exercised too; the on-the-fly ray-tracing projector vs matrix clause is oracle-only (both FOV shapes, 4k and 4k+2 views, every segment with sub-ranges, shifted origins, anisotropic and one-plane-per-ring grids). Five defects found this way were repaired in /repo.",
    note=TB + "what the rows are (Siddon ray tracing) is uninterpreted; float summation order covered only by the derived bound; ForwardProjectorByBinUsingRayTracing is not modelled (oracle comparison only).",
    design="DESIGN.md §4 C04")
 CHECKS["C05"] = dict(
@@ -97,8 +97,8 @@ CHECKS["C10"] = dict(
    text="Proof: for every index range, origin, voxel size: the header arithmetic (first pixel offset, reader's index range, recomputed origin) preserves every voxel's physical position exactly when header numbers "
         "print exactly and within an explicit bound otherwise; with find_scale_factor's result no stored integer overflows (types below 2^31) and decoding is within half a quantisation step (plus the header's "
         "scale-factor printing error); float output is exact; truncated data is rejected in the model of read_data; every exam-information field the format stores survives for frames of positive duration. "
-        "Clauses the code violates are negative-witness theorems tied to listed known findings (unsigned >= 32-bit output, double with automatic scale, unsigned output of non-positive images, NM multi-dataset offset). "
-        "Tie: the real write_to_file/read_from_file on generated images x number types x byte orders x scale factors x exam infos, compared field by field with the model; round-trip oracle on the implementation.",
+        "Truncated single, multi-data-set and multi-file images are rejected; exam information of every container member survives. Clauses the code violates are negative-witness theorems tied to listed known findings (unsigned >= 32-bit output, double with automatic scale, unsigned output of non-positive images, subnormal scale factors). "
+        "Tie: the real write_to_file/read_from_file on single images and on dynamic/parametric containers (Interfile and Multi) x every number type x byte order x scale setting x 11 value distributions x exam infos, every header, data set and member compared with the model; per-voxel position/value/exam oracles and truncation of every file of a container on the implementation; known findings are absorbed only for exactly their voxel, data set or length class.",
    note=TB + "decimal formatting of floats is an abstract rounding with a stated relative error; stream/OS behaviour is runtime; only the Interfile image format family (incl. dynamic/parametric multi) is exercised.",
    design="DESIGN.md §4 C10")
 CHECKS["C13"] = dict(
@@ -164,9 +164,9 @@ CHECKS["C03"] = dict(
         "bijection of voxel indices that keeps rows duplicate-free and inside a symmetric x/y range, find_transform_z is exact and carries the axial tube of the basic bin onto that of the bin, the cache key is "
         "injective on the guarded box, and for EVERY history of get / clear_cache / cache-mode / set_* / set_up events every returned row equals the operation applied to compute(basic bin) for the geometry last "
         "set up (refinement by induction over histories; compute = the ray tracer, uninterpreted). The symmetry-operation member functions, the two decision trees and cache_key are regenerated from the C++ source on "
-        "every run and proved equal to the model (tie T, 51 kernels). Tie (C): every bin of generated geometries x 32 switch combinations x 3 cache modes x ray counts on the real classes, exact comparison incl. "
+        "every run and proved equal to the model (tie T, 51 kernels). The same refinement holds for ProjMatrixByBinUsingInterpolation by reduction (its set_up has no short cut). Tie (C): every bin of generated geometries (TOF with view/TOF mashing, spans 1-4, cut-off outer segments, use_actual_detector_boundaries) x 32 switch combinations x 3 cache modes x ray counts on both real matrix classes, exact comparison incl. "
         "cache histories and re-set_up; oracle: each row against the row of a fresh matrix without symmetries and cache (library tolerance 2e-3, boundary ties screened geometrically), non-negative, no duplicates, "
-        "inside the image. Geometric reason for deriving rows (ProofsLOR, over the reals): for all 17 operation kinds the real-affine extension of the voxel map is an isometry that carries the line of response (and the whole ray bundle) of a bin onto that of op.onBin(bin), hence the LOR of every bin is the image of its basic bin's LOR under the operation findSymOp chooses; the TOF sign rule holds exactly for the kinds the constructor leaves enabled for TOF data (negative witness otherwise). The in-image clause fails in z for end-ring bins (listed known finding with negative witness and _partial theorem); a set_up defect found this way was repaired in /repo.",
+        "inside the image. Geometric reason for deriving rows (ProofsLOR, over the reals): for all 17 operation kinds the real-affine extension of the voxel map is an isometry that carries the line of response (and the whole ray bundle) of a bin onto that of op.onBin(bin), hence the LOR of every bin is the image of its basic bin's LOR under the operation findSymOp chooses; the TOF sign rule holds exactly for the kinds the constructor leaves enabled for TOF data (negative witness otherwise). The in-image clause fails in z for end-ring bins (listed known finding with negative witness and _partial theorem); six defects found this way were repaired in /repo; the z-clipping question is open for both matrix classes.",
    note=TB + "Siddon ray tracing and the TOF kernel are uninterpreted (that intersection lengths are invariant under the grid isometries is oracle-only; the LOR equivariance itself is a theorem); only the cylindrical branch is modelled; 32-bit overflow not modelled; translator trusts that constructors store arguments in the members of the same name.",
    design="DESIGN.md §4 C03")
 
@@ -187,7 +187,7 @@ CHECKS["C09"] = dict(
         "to the unit vector, H is symmetric, the exact second-order expansion holds for the quadratic prior, gradient = derivative of value for RDP and log-cosh, and with non-negative weights/kappa H is positive semi-definite; "
         "for PLSPrior the partial derivative of the value with respect to every voxel (borders and any kappa included) equals the gradient. Asymmetric user weights break the symmetric-weight clauses: negative witnesses and "
         "a listed known finding. Tie: the real prior classes on random images from 1x1x1 up (singleton dimensions, anisotropic spacing, user weights, only_2D, kappa), every quantity compared element by element with the model "
-        "under a derived float bound; algebraic-identity and central-difference oracles on the implementation. Three defects found this way were repaired in /repo (PLS gradient at borders, PLS kappa, Hessian centre weight).",
+        "under a derived float bound; algebraic-identity and central-difference oracles on the implementation. The check also follows ONE prior object through its life (first call of every API function with lazily computed weights, a second set_up with another image or voxel size, parse() with 'weights :=' incl. even sizes and kappa/anatomical files, every setter after use): the model keeps the object's members and predicts every call; weights of every reachable object state are proved symmetric and non-negative so the symmetric-weight theorems apply. Four defects found this way were repaired in /repo (PLS gradient at borders, PLS kappa, Hessian centre weight, default weights stale after set_up).",
    note=TB + "sqrt/log/cosh/tanh are Float in the driver and real functions in the proofs; PLS convexity and RDP derivatives at equal neighbouring values are oracle-only; parsing and set_up guards not modelled.",
    design="DESIGN.md §4 C09")
 CHECKS["C12"] = dict(
@@ -209,7 +209,7 @@ CHECKS["C17"] = dict(
         "exactly the declared number of elements (negative witness: a 33-byte line allocates 10^8 elements = the one listed known finding). Tie: the model is compared line by line with stir::KeyParser and the Interfile count "
         "call-backs (about 7600 operations quick). Oracle-only on the implementation: parameter_info -> parse -> parameter_info for every constructible registered class, keyword/alias/index oracles. Runtime evidence, not a theorem: "
         "memory safety, allocation size and size consistency of KeyParser::parse, read_interfile_image, read_interfile_PDFS and MultipleDataSetHeader under ASan/UBSan on grammar-aware mutations of valid headers (not coverage-guided). "
-        "Eleven defects found this way were repaired in /repo (null dereferences, a stack overflow by strcpy, two use-after-free, a division by zero, an endless loop, string-list trimming, a non-round-tripping 'None' normalisation).",
+        "For Interfile projection-data headers the rejection rule of the per-segment lists is a theorem about the model (an accepted header has one entry per declared segment in every list; one wrong list is rejected) compared with the real InterfilePDFSHeader; aliases resolve end to end for arbitrary spellings of key, target, alias and line (theorem + the library's own TOF aliases on the implementation); 377 structured 'exactly one field inconsistent' headers must be rejected and accepted headers must agree with an independent reading of the header text. Twelve defects found this way were repaired in /repo (null dereferences, a stack overflow by strcpy, two use-after-free, a division by zero, an endless loop, string-list trimming, a non-round-tripping 'None' normalisation).",
    note=TB + "floats, arrays, nested parsing objects, ${ENV} and NUL bytes are not modelled; only the listed sources are sanitizer-instrumented; signed-overflow reports on absurd header numbers are counted, not fatal; 40 registered classes need external data and are not constructed.",
    design="DESIGN.md §4 C17")
 
